@@ -66,8 +66,14 @@ class PBuf:
                     return mk(v)
                 continue
             e = symx.engine()
-            if e.ask(a == so) == "sat":
-                if e.ask(a != so) == "sat":
+            r1 = e.ask(a == so)
+            if r1 == "unknown":
+                raise symx.Inconclusive()  # an undecided aliasing question is not "different address"
+            if r1 == "sat":
+                r2 = e.ask(a != so)
+                if r2 == "unknown":
+                    raise symx.Inconclusive()
+                if r2 == "sat":
                     if e.decide(a == so):
                         return mk(v)
                 else:
